@@ -61,6 +61,9 @@ BOUNDS = {
                                        "both grid kinds, all ranges and acceptances",
               "signs": "linearity with a combination that is negative over part of q, apply(-f), differences of two "
                        "Gaussians, negative scale through DirectModel and Gxi",
+              "copy_round_trip": "copy.deepcopy and pickle of every transform with n <= 50 (and of DirectModel and its transform; a "
+                                 "refusal to pickle the calculator is accepted), then apply to a Gaussian that is as wide in q "
+                                 "as the calculated range allows: bit-identical",
               "reuse": "every transform: data object and I(q) array compared bit for bit with copies after construction and "
                        "apply(); apply() twice; second transform from the same data object (n <= 5, linear grids n <= 20); DirectModel twice",
               "interleaved_construction": "fresh processes: create A, create B (all 72 ordered pairs of distinct (wavelength, "
@@ -570,7 +573,7 @@ def judge_transform(r, J, T, xi, lam, acc, svals, nxi_quad, tag=""):
     return results
 
 
-def _reuse(r, J, data, before, T, s, second=True):
+def _reuse(r, J, data, before, T, s, second=True, copies=True):
     """
     inputs are not modified / second use: the data object handed to _make_sesans_transform and the I(q) array handed
     to apply() stay bit-identical to their copies; apply() twice on the same array and a second transform built from
@@ -598,6 +601,26 @@ def _reuse(r, J, data, before, T, s, second=True):
               what="apply")
     inputs_ok("apply()")
     branches = ["reuse:apply-twice"]
+    # copy round trip (copy.deepcopy / pickle, as a parallel fit does): q_calc and values bit for bit those of the original
+    if copies:
+        for how, twin, refusal in H.copy_round_trips(T):
+            if twin is None:
+                J.bad("copy", "%s of the transform failed: %s" % (how, refusal), how=how, what="refused")
+                continue
+            try:
+                qc = np.asarray(twin.q_calc, float)
+                oc = _apply(twin, keep.copy())
+            except Exception as exc:  # noqa
+                J.bad("copy", "the %s copy cannot be applied: %s: %s" % (how, type(exc).__name__, exc), how=how, what="raises")
+                continue
+            if qc.shape != q.shape or not np.array_equal(qc, q):
+                J.bad("copy", "the %s copy calculates %d q values, the original %d" % (how, len(qc), len(q)), how=how, what="q_calc")
+            elif oc.shape != o1.shape or not np.array_equal(oc, o1, equal_nan=True):
+                k = int(np.argmax(oc != o1)) if oc.shape == o1.shape else 0
+                J.bad("copy", "gauss(s=%r): the %s copy gives %r at spin-echo length %d, the original %r (an acceptance cut or "
+                      "wavelength lost in the copy shows here)" % (s, how, oc[k] if oc.shape == o1.shape else oc.shape, k, o1[k]),
+                      how=how, what="result")
+            branches.append("copy:" + how)
     if second:
         T2 = build_transform(data)
         q2 = np.asarray(T2.q_calc, float)
@@ -612,6 +635,14 @@ def _reuse(r, J, data, before, T, s, second=True):
         inputs_ok("second construction")
         branches.append("reuse:second-construction")
     r.ok(nt=True, outcome="reuse", trans=3, branches=branches)
+
+
+def _reuse_width(T, svals):
+    """the Gaussian used for the second-use / copy clauses: the one that is widest in q (smallest s) whose 1/s still
+    lies inside the calculated range, so that an acceptance cut or a kinematic limit carries weight if there is one"""
+    q = np.asarray(T.q_calc, float)
+    ok = [s for s in svals if len(q) > 1 and q[0] < 1.0 / s < q[-1] / 3]
+    return min(ok) if ok else svals[len(svals) // 2]
 
 
 def _short(v):
@@ -774,7 +805,7 @@ def run_transform(case, ctx, r):
             return
     else:
         T = build_transform(data)
-    _reuse(r, J, data, before, T, case["s"][len(case["s"]) // 2], second=len(xi) <= 5 or (len(xi) <= 20 and case["grid"] == "linear"))
+    _reuse(r, J, data, before, T, _reuse_width(T, case["s"]), copies=len(xi) <= 50, second=len(xi) <= 5 or (len(xi) <= 20 and case["grid"] == "linear"))
     res = judge_transform(r, J, T, xi, lam, acc, case["s"], case["nxi_quad"])
     if order:
         _order_equivariance(r, J, T, xi, xi_a, lam_a, acc, perm, case["s"], order)
@@ -842,6 +873,18 @@ def run_direct(case, ctx, r):
         J.bad("second-use", "first call %s, second call %s, second DirectModel from the same data object %s"
               % (base[:3], again[:3], other[:3]), what="direct")
     r.branch("reuse:direct")
+    for how, twin, refusal in H.copy_round_trips(DirectModel(data, model, cutoff=0.0)) + H.copy_round_trips(calc.resolution):
+        if twin is None:
+            r.branch("copy-refused:direct:" + how)          # ctypes kernels do not pickle: a refusal is accepted
+            continue
+        with warnings.catch_warnings():
+            warnings.simplefilter("ignore")
+            v = (np.array(twin(scale=1.0, background=0.0, **pars), float) if hasattr(twin, "_calc_theory")
+                 else _apply(twin, Iq))
+        if v.shape != base.shape or not np.array_equal(v, base, equal_nan=True):
+            J.bad("copy", "the %s copy of %s gives %s, the original %s"
+                  % (how, type(twin).__name__, v[:3], base[:3]), how=how, what="direct")
+        r.branch("copy:direct:" + how)
     if not np.array_equal(base, with_bg):
         k = int(np.argmax(np.abs(base - with_bg)))
         J.bad("background", "background=7.5 changes the SESANS value at xi=%r: %r -> %r" % (xi[k], base[k], with_bg[k]))
@@ -918,6 +961,9 @@ def finish(ctx, report):
     report.require("interleaved", 400, "data set B created (and built) between creating and building data set A")
     report.require("reuse:apply-twice", 300, "apply() twice on the same I(q) array; data object compared with its copy")
     report.require("reuse:second-construction", 200, "a second transform built from the same data object")
+    for how in ("deepcopy", "pickle"):
+        report.require("copy:" + how, 300, "copy round trip of a transform")
+    report.require("copy:direct:deepcopy", 3, "copy round trip of DirectModel / its transform")
     report.require("reuse:direct", 3, "second call / second DirectModel from the same data object")
     for o in H.ORDERS[1:]:
         report.require("order:" + o, 30, "the same spin-echo lengths stored in another order")
